@@ -167,6 +167,9 @@ def discharge(db, b, s):
             why = caller_guard(db, b, key, bi)
             if why:
                 return why
+        why = variant_guard(db, b, t, bi)
+        if why:
+            return why
         # (iii) fmt::Write into a String / (iv) infallible conversions
         for cb, ct, _ in rsl.calls:
             d = callee_def(ct)
@@ -318,6 +321,51 @@ def infeasible_otherwise(db, b, bi):
             continue
         if all(v in vals for v in range(r[0], r[1] + 1)):
             return "reachable only through the default arm of a switch at %s whose scrutinee has the range %s, all covered by explicit arms" % (b.loc(sb), _fmt(r))
+    return None
+
+
+# an enum variant that is only constructed where an Option field is Some: unwrapping that field under a match on the variant is safe
+VARIANT_GUARDS = [{"adt": "s3s::ops::Prepare", "variant": "CustomRoute", "field_adt": "s3s::ops::CallContext", "field": "route"}]
+
+
+def _under_variant(db, b, bi, g, depth=0):
+    """block bi of body b is executed only under a match arm for the variant - in b itself, or at every place b is called / awaited from"""
+    f = guards.dominating_facts(b, bi)
+    if any(x[0] == "enum" and x[1] == g["adt"] and x[2] == frozenset([g["variant"]]) for x in f):
+        return True
+    if depth > 3:
+        return False
+    from .. import inline
+    sites = []
+    if b.kind == "Closure":
+        par = db.bodies.get(b.parent)
+        if par is None:
+            return False
+        if b.raw.get("coroutine") and par.kind in ("Fn", "AssocFn"):
+            if inline.is_role(db, par):
+                return False
+            sites = [(cb, cbi) for cb, cbi, _ in db.callers_of(par.name)]
+        else:
+            sites = [(par, b2) for b2, _, st in par.stmts() if st["rv"]["k"] == "agg" and st["rv"].get("def") == b.name]
+    elif inline.default_policy(db, None, None, b):
+        sites = [(cb, cbi) for cb, cbi, _ in db.callers_of(b.name)]
+    return bool(sites) and all(_under_variant(db, cb, cbi, g, depth + 1) for cb, cbi in sites)
+
+
+def variant_guard(db, b, t, bi):
+    sl = flow.backward(b, t["args"][0], at=bi, through_calls=False)
+    for g in VARIANT_GUARDS:
+        if (g["field_adt"], g["field"]) not in sl.fields_full and (g["field_adt"].rsplit("::", 1)[-1], g["field"]) not in sl.fields:
+            continue
+        if [1 for _, ct, _ in sl.calls if not flow.is_transparent(ct)]:
+            continue
+        if not _under_variant(db, b, bi, g):
+            continue
+        bad = check_lemma(db, {"body": b, "bi": bi}, dict(g, kind="variant-implies-some"))
+        if bad:
+            continue
+        return "%s::%s is only constructed where %s.%s is Some, and this unwrap runs only under that variant" % (
+            g["adt"].rsplit("::", 1)[-1], g["variant"], g["field_adt"].rsplit("::", 1)[-1], g["field"])
     return None
 
 
